@@ -62,6 +62,9 @@ Comp(bodies, orelses) ==
            THEN {[k |-> "try", body |-> b, handler |-> hf[1], final |-> hf[2], orelse |-> <<>>] :
                     b \in bodies, hf \in {<<<<Mark>>, <<>>>>, <<<<>>, <<Mark>>>>, <<<<Mark>>, <<Mark>>>>, <<<<[k |-> "return"]>>, <<>>>>}
                                             \cup {<<<<[k |-> l]>>, <<>>>> : l \in Leaves \cap {"break", "continue"}}}
+                \* try / except / else: the else clause runs only when the body completed normally
+                \cup {[k |-> "try", body |-> b, handler |-> h, final |-> <<>>, orelse |-> o] :
+                         b \in bodies, h \in {<<Mark>>, <<[k |-> "return"]>>}, o \in {<<[k |-> l]>> : l \in Leaves \cap {"return", "raise", "break"}} \cup {<<Mark>>}}
            ELSE {})
     \cup (IF "match" \in Compounds THEN {[k |-> "match", body |-> b, orelse |-> o] : b \in bodies, o \in orelses} ELSE {})
 
@@ -99,7 +102,7 @@ WF(block, inloop) ==
         CASE s.k \in {"break", "continue"} -> inloop
           [] s.k \in {"if", "match"} -> WF(s.body, inloop) /\ WF(s.orelse, inloop)
           [] s.k = "with" -> WF(s.body, inloop)
-          [] s.k = "try" -> WF(s.body, inloop) /\ WF(s.handler, inloop) /\ WF(s.final, inloop)
+          [] s.k = "try" -> WF(s.body, inloop) /\ WF(s.handler, inloop) /\ WF(s.final, inloop) /\ WF(s.orelse, inloop)
           [] s.k \in {"while", "for"} -> WF(s.body, TRUE) /\ WF(s.orelse, inloop)
           [] OTHER -> TRUE
 
@@ -164,7 +167,9 @@ LoopNext ==
 \* the body or the handler of a try statement completed normally: run the finally clause, if any
 TryNext ==
     /\ status = "run" /\ K # <<>> /\ Top.f = "try"
-    /\ K' = IF Top.s.final # <<>> THEN Pop \o <<FinF("none"), SeqF(Top.s.final, Top.path \o <<4>>, 1)>> ELSE Pop
+    /\ K' = IF Top.stage = "body" /\ Top.s.orelse # <<>>
+              THEN Pop \o <<TryF(Top.s, Top.path, "else"), SeqF(Top.s.orelse, Top.path \o <<2>>, 1)>>     \* exceptions of the else clause are not handled here
+            ELSE IF Top.s.final # <<>> THEN Pop \o <<FinF("none"), SeqF(Top.s.final, Top.path \o <<4>>, 1)>> ELSE Pop
     /\ status' = "run"
     /\ UNCHANGED shape
 
